@@ -225,11 +225,49 @@ structure Tetris where
   free : List Int
 deriving Repr, DecidableEq, Inhabited
 
+/-- Which `TetrisLegalizer::attemptPlacement/placeCell` the working tree has: `false` = the
+orientation (and the INVALID test) come from the first segment at that y (`closestRow(y)`);
+`true` = after `fix: c04-tetris-row-orientation` (fixes/c04-tetris-row-orientation*.diff, owned by
+C04): per segment.  Both variants are exercised against the real code by the C01 stream; they
+coincide whenever all segments of one y have the same orientation.  Flip this constant together
+with the application of that fix to /repo. -/
+def tetrisPerSegmentOrientation : Bool := false
+
 /-- `TetrisLegalizer::attemptPlacement(cell, y)`; `none` = `(false, 0)`.
 (After fix c01-tetris-turned: the stored sizes are placed sizes, no swap.) -/
-def attempt (t : Tetris) (c : LCell) (y : Int) : Option Int :=
+def attemptFirstSeg (t : Tetris) (c : LCell) (y : Int) : Option Int :=
   if getOrientation t.rows c (startRow t.rows y) = Orient.INVALID then none
   else (possibleIvs t.rows t.rowH t.free c.w (c.h.toNat + 1) c.h y).foldl (closestStep c.tx) none
+
+/-- inner loop of the per-segment `attemptPlacement`: only the intervals lying in segment `r` -/
+def closestInSeg (x w : Int) (r : Row) (acc : Option Int) (iv : Int × Int) : Option Int :=
+  if iv.1 < r.rect.minX || iv.2 + w > r.rect.maxX then acc else closestStep x acc iv
+
+/-- outer loop of the per-segment `attemptPlacement` over the segments with `minY == y` -/
+def attemptSegs (rows : List Row) (c : LCell) (y : Int) (ivs : List (Int × Int)) : Nat → List Row → Option Int → Option Int
+  | _, [], acc => acc
+  | i, r :: rs, acc =>
+    if r.rect.minY ≠ y then acc
+    else if getOrientation rows c i = Orient.INVALID then attemptSegs rows c y ivs (i + 1) rs acc
+    else attemptSegs rows c y ivs (i + 1) rs (ivs.foldl (closestInSeg c.tx c.w r) acc)
+
+/-- `attemptPlacement` after `fix: c04-tetris-row-orientation` -/
+def attemptPerSeg (t : Tetris) (c : LCell) (y : Int) : Option Int :=
+  attemptSegs t.rows c y (possibleIvs t.rows t.rowH t.free c.w (c.h.toNat + 1) c.h y)
+    (startRow t.rows y) (t.rows.drop (startRow t.rows y)) none
+
+def attempt (t : Tetris) (c : LCell) (y : Int) : Option Int :=
+  if tetrisPerSegmentOrientation then attemptPerSeg t c y else attemptFirstSeg t c y
+
+/-- the `while` loop of the fixed `placeCell`: last segment at `y` starting at or left of `x` -/
+def segOf (x y : Int) : Nat → List Row → Nat
+  | i, r :: rs => if r.rect.minY == y && decide (r.rect.minX ≤ x) then segOf x y (i + 1) rs else i
+  | i, [] => i
+
+/-- row whose orientation the placed cell takes -/
+def orientRow (rows : List Row) (x y : Int) : Nat :=
+  if tetrisPerSegmentOrientation then segOf x y (startRow rows y) (rows.drop (startRow rows y + 1))
+  else startRow rows y
 
 structure Best where
   x : Int
@@ -293,7 +331,7 @@ def tetrisPlace (t : Tetris) (c : LCell) : Tetris × Pos :=
   | none => (t, initPos c)
   | some b =>
     ({ t with free := instanciate t.rows t.rowH b.x c.w (c.h.toNat + 1) b.y c.h t.free },
-     ⟨b.x, b.y, getOrientation t.rows c (startRow t.rows b.y), true⟩)
+     ⟨b.x, b.y, getOrientation t.rows c (orientRow t.rows b.x b.y), true⟩)
 
 /-- `TetrisLegalizer::run` over the cells in order; statuses in the same order -/
 def tetrisRun : Tetris → List LCell → List Pos
